@@ -1136,28 +1136,40 @@ fn ov_operand(t: &str, v: &OV) -> Option<Option<OV>> {
 }
 
 fn entry_oracle_v(entry: &str, v: &OV) -> Option<bool> {
+  entry_oracle_u(entry, v).map(|(satisfied, _)| satisfied)
+}
+
+/// (satisfied, undecided): `undecided` says that the entry is a negated list none of whose tests is satisfied and one
+/// of whose tests — a comparison or an interval — cannot be decided for the input (a null or absent input, an input
+/// of another kind than the operand): the test is null, `not(null)` is null (DMN 1.3 table 50, 10.3.2.8), so the
+/// entry is *not satisfied* and the rule does not match; the implementation may answer null or false for it.
+fn entry_oracle_u(entry: &str, v: &OV) -> Option<(bool, bool)> {
   let e = entry.trim();
   let (negated, body) = match e.strip_prefix("not(").and_then(|r| r.strip_suffix(')')) {
     Some(b) => (true, b),
     None => (false, e),
   };
   let mut any = false;
+  let mut undecided = false;
+  // an equality test against a literal of another kind under a negation: not asserted (unless another test decides)
+  let mut unasserted = false;
   for test in body.split(',') {
     let t = test.trim();
-    let ok = if t == "-" {
+    // `und`: an ordering test (comparison, interval) whose operand is of another kind than the input, or of a null input
+    let (ok, und) = if t == "-" {
       // irrelevant: satisfied by every input value, null included (DMN 1.3, 8.3.3)
-      true
+      (true, false)
     } else if t == "null" {
       // an alternative `null` is the test `? = null`: satisfied by a null input only
-      *v == OV::Null
+      (*v == OV::Null, false)
     } else if let Some(r) = t.strip_prefix("<=") {
-      ov_operand(r, v)?.map_or(false, |x| *v <= x)
+      ov_operand(r, v)?.map_or((false, true), |x| (*v <= x, false))
     } else if let Some(r) = t.strip_prefix(">=") {
-      ov_operand(r, v)?.map_or(false, |x| *v >= x)
+      ov_operand(r, v)?.map_or((false, true), |x| (*v >= x, false))
     } else if let Some(r) = t.strip_prefix('<') {
-      ov_operand(r, v)?.map_or(false, |x| *v < x)
+      ov_operand(r, v)?.map_or((false, true), |x| (*v < x, false))
     } else if let Some(r) = t.strip_prefix('>') {
-      ov_operand(r, v)?.map_or(false, |x| *v > x)
+      ov_operand(r, v)?.map_or((false, true), |x| (*v > x, false))
     } else if t.contains("..") {
       let (ob, rest) = t.split_at(1);
       let (mid, cb) = rest.split_at(rest.len() - 1);
@@ -1166,27 +1178,39 @@ fn entry_oracle_v(entry: &str, v: &OV) -> Option<bool> {
         (Some(lo), Some(hi)) => {
           let l_ok = if ob == "[" { *v >= lo } else { *v > lo };
           let r_ok = if cb == "]" { *v <= hi } else { *v < hi };
-          l_ok && r_ok
+          (l_ok && r_ok, false)
         }
-        _ => false,
+        _ => (false, true),
       }
     } else {
-      ov_operand(t, v)?.map_or(false, |x| *v == x)
-    };
-    if negated && *v == OV::Null && (t.starts_with('<') || t.starts_with('>') || t.contains("..")) {
-      // an ordering test of a null input is undecided (null), and so is its negation: not asserted here
-      return None;
-    }
-    if negated && !ok && t != "-" && t != "null" && *v != OV::Null {
-      // a negated list with an alternative of another kind: not asserted here
-      let probe = t.trim_start_matches(|c| c == '<' || c == '>' || c == '=').trim();
-      if !t.contains("..") && ov_parse(probe, v).is_none() {
-        return None;
+      match ov_operand(t, v)? {
+        Some(x) => (*v == x, false),
+        None => {
+          // a literal of another kind than the input: not equal; under a negation whether the code's `false` or
+          // FEEL's null for an equality across kinds is meant is left open (a null input is equal to null only)
+          if negated && *v != OV::Null {
+            unasserted = true;
+          }
+          (false, false)
+        }
       }
-    }
+    };
     any |= ok;
+    undecided |= und;
   }
-  Some(if negated { !any } else { any })
+  if !negated {
+    return Some((any, false));
+  }
+  if any {
+    return Some((false, false));
+  }
+  if undecided {
+    return Some((false, true));
+  }
+  if unasserted {
+    return None;
+  }
+  Some((true, false))
 }
 
 /// The branch of rule matching a cell exercises (part of the signature of a disagreement; the shapes the
@@ -1401,7 +1425,7 @@ pub fn run(cfg: &Cfg) -> Report {
             },
           };
           for r in &t.rules {
-            let want = match entry_oracle_v(&r.inputs[i], &v) {
+            let (want, undecided) = match entry_oracle_u(&r.inputs[i], &v) {
               Some(w) => w,
               None => continue,
             };
@@ -1421,10 +1445,15 @@ pub fn run(cfg: &Cfg) -> Report {
               Err(p) => format!("panic {}", p),
             };
             // for a null input only `satisfied or not` is asserted (an undecided test may answer false or null)
-            let agrees = if v == OV::Null { matches!(&got, Ok(Some(Value::Boolean(true)))) == want } else { shown == want.to_string() };
+            // (and so for a negated test that cannot be decided: it is not satisfied, null or false)
+            let agrees = if v == OV::Null || undecided { matches!(&got, Ok(Some(Value::Boolean(true)))) == want } else { shown == want.to_string() };
             rep.hit(&format!("cell-oracle:{}", cell_branch(&r.inputs[i], &v)));
+            if undecided {
+              rep.hit("cell-oracle:negated test that cannot be decided");
+            }
             if !agrees {
               let sig = match cell_branch(&r.inputs[i], &v) {
+                _ if undecided => "a negated input entry whose test cannot be decided for the input (not(< 5) of a string or of null) is satisfied: the rule matches".to_string(),
                 "other" => "an input entry is satisfied (or not) contrary to what its text says: the set of matching rules is wrong".to_string(),
                 b => format!("an input entry is satisfied (or not) contrary to what its text says ({}): the set of matching rules is wrong", b),
               };
@@ -1548,6 +1577,94 @@ pub fn run(cfg: &Cfg) -> Report {
         }
       }
     }
+  }
+  // Negated entries whose test cannot be decided for the input: a comparison or an interval under `not(...)` against
+  // an input of another kind, a null input or an absent one.  The test is null, its negation is null, the entry is
+  // not satisfied and the rule does not match (DMN 1.3: not(null) = null; a rule matches when every input entry is
+  // *true*) — unless another alternative of the list is satisfied, which makes the negation false, or every test is
+  // decided.  Every comparison sign × operand kind, every interval bracket × kind, alone and with a decided
+  // alternative before / after it, against integer, string, boolean, null and absent inputs; COLLECT tables of up to 8
+  // rules through the XML path and `build_decision_table_evaluator`; the expectation is the oracle on the entry texts.
+  {
+    let inputs: Vec<(Option<&str>, OV, Ty)> = vec![
+      (Some("3"), OV::I(Dn::int(3)), Ty::Num),
+      (Some("5"), OV::I(Dn::int(5)), Ty::Num),
+      (Some("9"), OV::I(Dn::int(9)), Ty::Num),
+      (Some("\"abc\""), OV::S("abc".into()), Ty::Str),
+      (Some("\"m\""), OV::S("m".into()), Ty::Str),
+      (Some("\"zz\""), OV::S("zz".into()), Ty::Str),
+      (Some("true"), OV::B(true), Ty::Bool),
+      (Some("false"), OV::B(false), Ty::Bool),
+      (Some("null"), OV::Null, Ty::Num),
+      (None, OV::Null, Ty::Str),
+      (None, OV::Null, Ty::Num),
+    ];
+    let mut tests: Vec<String> = vec![];
+    for op in ["<", "<=", ">", ">="] {
+      for operand in ["5", "3", "\"m\"", "\"abc\""] {
+        tests.push(format!("{} {}", op, operand));
+        tests.push(format!("{}{}", op, operand));
+      }
+    }
+    for (ob, cb) in [("[", "]"), ("(", ")"), ("]", "["), ("[", ")"), ("(", "]")] {
+      tests.push(format!("{}1..5{}", ob, cb));
+      tests.push(format!("{}\"a\"..\"n\"{}", ob, cb));
+    }
+    let decided = ["3", "9", "\"abc\"", "\"zz\"", "true", "null"];
+    let mut entries: Vec<String> = vec![];
+    for t in &tests {
+      entries.push(format!("not({})", t));
+      entries.push(format!("not( {} )", t));
+    }
+    for (k, t) in tests.iter().enumerate() {
+      let d = decided[k % decided.len()];
+      let d2 = decided[(k + 1) % decided.len()];
+      entries.push(format!("not({}, {})", t, d));
+      entries.push(format!("not({}, {})", d2, t));
+      entries.push(format!("not({}, {})", t, tests[(k * 7 + 3) % tests.len()]));
+    }
+    let mut n_und = 0usize;
+    for (text, v, ty) in &inputs {
+      let usable: Vec<(String, bool, bool)> = entries.iter().filter_map(|e| entry_oracle_u(e, v).map(|(sat, und)| (e.clone(), sat, und))).collect();
+      for chunk in usable.chunks(8) {
+        let t = GenTable {
+          decimal: false,
+          hit_policy: POLICIES[6].0,
+          aggregation: POLICIES[6].1,
+          ins: vec![InClause { name: "i1".into(), ty: *ty, input_values: None }],
+          outs: vec![OutClause { name: None, ty: Ty::Num, output_values: None, default: None }],
+          rules: chunk.iter().enumerate().map(|(k, (e, _, _))| GenRule { inputs: vec![e.clone()], outputs: vec![format!("{}", k + 1)] }).collect(),
+        };
+        let ms: Vec<usize> = chunk.iter().enumerate().filter(|(_, (_, sat, _))| *sat).map(|(k, _)| k + 1).collect();
+        let want = if ms.is_empty() { "(ok null)".to_string() } else { format!("(ok (l {}))", ms.iter().map(|k| format!("(n {})", k)).collect::<Vec<_>>().join(" ")) };
+        n_und += chunk.iter().filter(|(_, _, und)| *und).count();
+        let xml = table_xml(&t);
+        let tuple = vec![text.map(|x| x.to_string())];
+        let (sent, seen, input_text) = context_of(&t, &tuple);
+        let got_xml = match guarded(|| dmntk_model::parse(&xml).map_err(|e| e.to_string()).and_then(|d| ModelEvaluator::new(&d).map_err(|e| e.to_string())).map(|me| me.evaluate_invocable("D", &sent))) {
+          Ok(Ok(val)) => value_sexp(&val).map_or_else(|| format!("(unsupported {})", val), |x| format!("(ok {})", x)),
+          Ok(Err(e)) => format!("(build-error {})", e.replace(' ', "_")),
+          Err(p) => format!("(panic {})", p.replace(' ', "_")),
+        };
+        let got_direct = direct_eval(&table_struct(&t), &seen);
+        rep.case(&format!("{}|{}", xml, input_text), true);
+        rep.hit(&format!("negated-undecided: input {} × {}", match v { OV::I(_) => "integer", OV::S(_) => "string", OV::B(_) => "boolean", OV::Null => if text.is_some() { "null" } else { "absent" } }, if chunk.iter().any(|(_, _, und)| *und) { "an entry that cannot be decided" } else { "decided entries only" }));
+        for (path, got) in [("XML", &got_xml), ("build_decision_table_evaluator", &got_direct)] {
+          if *got != want {
+            let culprit = chunk.iter().find(|(_, _, und)| *und).map_or(String::new(), |(e, _, _)| format!(" (e.g. `{}`)", e));
+            rep.disagree(
+              Kind::ImplVsSpec,
+              "negated-undecided",
+              "a negated input entry whose test cannot be decided for the input (not(< 5) of a string or of null) is satisfied: the rule matches",
+              &format!("{} | input {} | through {}{}", xml, input_text, path, culprit),
+              got,
+              &want,
+            );
+          }
+        }
+      }
+    }
+    rep.hit(&format!("negated-undecided: {} cells that cannot be decided", if n_und > 0 { "some" } else { "no" }));
   }
   // The cells of a table are taken as they are written in the document: string literals that differ only in the white
   // space inside them (two blanks, a tab, a blank and a tab, a blank at either end; a line break is no part of a FEEL string literal) are different values — in input entries,
